@@ -1,4 +1,5 @@
 import OmplModel.Model.Motion
+import OmplModel.Model.MotionReconf
 import OmplModel.Model.Dubins
 import OmplModel.Model.ReedsShepp
 import OmplModel.Model.Vana
@@ -165,6 +166,8 @@ structure St where
   /-- the validator `SpaceInformation::setDefaultMotionValidator` installs for this space -/
   defVal : Validator := .discrete
   nest : Option NestArm := none
+  /-- identity of the installed checker object (a new one per `swapvc`) -/
+  gen : Nat := 0
 
 def kvs (ts : List String) : Option (List (String × String)) :=
   ts.mapM (fun t => match t.splitOn "=" with
@@ -289,19 +292,42 @@ def countOf (st : St) (h : Hints) (a b : List Float) : Nat × Bool :=
 `ownInv = some l`: the call's own index predicate (a nested call); `none`: the installed checker's predicate.
 `before`: the counters when the call starts; `mid`: what calls nested inside it added.
 Returns the result line, the call's own counter increments and the number of validity questions it asks. -/
+def predOf (st : St) (ownInv : Option (List Nat)) (n : Nat) (a b : List Float) : List Nat :=
+  match ownInv with
+  | some l => l
+  | none => match st.box, st.sp with
+    | some bx, some sp =>
+      let idx := if n == 0 then [0] else (List.range' 1 n)
+      idx.filter (fun j =>
+        if j == n then inBox b bx else inBox (sp.interp (Float.ofNat j / Float.ofNat n) a b) bx)
+    | _, _ => st.inv
+
+/-- the configuration machine's view of the driver state (`OmplModel.Motion.Config`): the reconfiguration ops and
+the checks go through `Config.step` / `Config.checkNow`, which is what `Props/C05.lean` (`history_*`) is about. -/
+def St.cfg (st : St) : Config Float (Option Sp × Nat) :=
+  ⟨st.gen, st.pendFrac, st.ctx.frac, (st.sp, st.topFac), st.val, st.cv, st.ci⟩
+
+def St.withCfg (st : St) (c : Config Float (Option Sp × Nat)) : St :=
+  { st with gen := c.checker, pendFrac := c.pending, ctx := { st.ctx with frac := c.effective }, sp := c.factor.1,
+            topFac := c.factor.2, val := c.val, cv := c.cv, ci := c.ci }
+
+/-- the world outside the configuration, for the pair and hints at hand. -/
+def envOf (st : St) (h : Hints) (v : Nat → Bool) : Env Float (Option Sp × Nat) (List Float × List Float) :=
+  { seg := fun fac eff d =>
+      (countOf { st with sp := fac.1, topFac := fac.2, ctx := { st.ctx with frac := eff } } h d.1 d.2).1
+    pathOk := fun d => (countOf st h d.1 d.2).2
+    valid := fun _ _ j => v j }
+
+/-- a reconfiguration op, executed by the model's `Config.step`. -/
+def St.reconf (st : St) (op : Op Float (Option Sp × Nat) (List Float × List Float)) : St :=
+  st.withCfg ((st.cfg.step (envOf st {} (fun _ => true)) op).1)
+
 def oneCall (st : St) (op : String) (h : Hints) (a b : List Float) (ownInv : Option (List Nat))
-    (before mid : Nat × Nat) : String × (Nat × Nat) × Nat :=
+    (before mid : Nat × Nat) (rOverride : Option Result := none) : String × (Nat × Nat) × Nat :=
   let (n, pathOk) := countOf st h a b
   -- scripted predicate: an index set, or a box evaluated on the model's own interpolants
   let useBox := ownInv.isNone && st.box.isSome
-  let invl : List Nat := match ownInv with
-    | some l => l
-    | none => match st.box, st.sp with
-      | some bx, some sp =>
-        let idx := if n == 0 then [0] else (List.range' 1 n)
-        idx.filter (fun j =>
-          if j == n then inBox b bx else inBox (sp.interp (Float.ofNat j / Float.ofNat n) a b) bx)
-      | _, _ => st.inv
+  let invl : List Nat := predOf st ownInv n a b
   let v : Nat → Bool := fun j => !invl.contains j
   let invs := if useBox then " inv=" ++ qstr invl else ""
   let cntOf := fun (dv di : Nat) =>
@@ -331,7 +357,10 @@ def oneCall (st : St) (op : String) (h : Hints) (a b : List Float) (ownInv : Opt
         | none => "untouched"
       (s!"v={vb} n={n} lv={lv} lvs={lvs} q={qs} {tail}", (r.dValid, r.dInvalid), asked)
   else
-    let r := if op == "cm2" then checkMotion2 st.val pathOk n v else checkMotion3 st.val pathOk n v
+    -- a check made NOW under the current configuration (or the result the re-entrancy machine computed)
+    let r := match rOverride with
+      | some r => r
+      | none => st.cfg.checkNow (envOf st h v) (op != "cm2") (a, b)
     let vb := if r.verdict then "1" else "0"
     let cnt := cntOf r.dValid r.dInvalid
     if op == "cm2" then
@@ -419,31 +448,34 @@ def step (st : St) (ts : List String) : St × String :=
     | _, _ => (st, "bad-op")
   | ["swapvc", m] =>
     -- a new checker object with the empty predicate is installed; nothing else changes
-    if m == "keep" || m == "drop" || m == "fn" then ({ st with inv := [], box := none }, "ok") else (st, "bad-op")
+    if m == "keep" || m == "drop" || m == "fn" then
+      ({ st.reconf (.setChecker (st.gen + 1)) with inv := [], box := none }, "ok")
+    else (st, "bad-op")
   | ["setfrac", f] =>
     match parseFloatBits? f with
     | some x =>
       if st.constrained then (st, "bad-op")
       else if x < dblEps || x > 1.0 - dblEps then (st, "bad-op")
-      else ({ st with pendFrac := x }, "ok")      -- read by the next setup() only
+      else (st.reconf (.setResolution x), "ok")      -- read by the next setup() only
     | none => (st, "bad-op")
   | ["setfac", s, k] =>
     match s.toNat?, k.toNat? with
     | some slot, some k =>
       if st.constrained || k < 1 || k > 1000 then (st, "bad-op")
       else match st.sp with
-        | some sp => if slot < sp.slots then ({ st with sp := some (sp.setFac slot k) }, "ok") else (st, "bad-op")
-        | none => if slot == 0 then ({ st with topFac := k }, "ok") else (st, "bad-op")
+        | some sp =>
+          if slot < sp.slots then (st.reconf (.setFactor (some (sp.setFac slot k), st.topFac)), "ok") else (st, "bad-op")
+        | none => if slot == 0 then (st.reconf (.setFactor (none, k)), "ok") else (st, "bad-op")
     | _, _ => (st, "bad-op")
-  | ["setup"] => ({ st with ctx := { st.ctx with frac := st.pendFrac } }, "ok")
+  | ["setup"] => (st.reconf .setup, "ok")
   | ["setmv", m] =>
     if m == "default" then
       -- setMotionValidator(nullptr) + setup(): the space's default validator, fresh counters; setup() ran
-      ({ st with val := st.defVal, cv := 0, ci := 0, ctx := { st.ctx with frac := st.pendFrac } }, "ok")
+      (st.reconf (.setValidator st.defVal true), "ok")
     else if m == "discrete" && !st.constrained && st.defVal != .dubins3D then
-      ({ st with val := .discrete, cv := 0, ci := 0 }, "ok")
+      (st.reconf (.setValidator .discrete false), "ok")
     else (st, "bad-op")
-  | ["resetcnt"] => ({ st with cv := 0, ci := 0 }, "ok")
+  | ["resetcnt"] => (st.reconf .resetCounters, "ok")
   | "nest" :: k :: mode :: form :: rest =>
     match k.toNat?, state? st rest with
     | some k, some (a, rest2) =>
@@ -479,9 +511,26 @@ def step (st : St) (ts : List String) : St × String :=
           | none => ({ st with cv := st.cv + d0.1, ci := st.ci + d0.2 }, line0)
           | some ne =>
             let st1 := { st with nest := none }
-            if ne.k ≤ asked then
-              -- the nested call runs to completion in the middle of the outer one, on the same validator
-              let hN := (hintsOfList ne.hints).getD {}
+            let hN := (hintsOfList ne.hints).getD {}
+            let (nO, pathO) := countOf st1 h a b
+            let (nN, pathN) := countOf st1 hN ne.a ne.b
+            if !st.constrained && pathO && pathN then
+              -- the re-entrancy machine (`OmplModel.Motion.outerCall`, per-call scratch as coded): the outer call with
+              -- the nested one run by the checker inside its k-th question; `reentrant_nested_alone` says what comes out
+              let invO := predOf st1 none nO a b
+              let vv : Nat × Nat → Bool := fun p => if p.1 == 0 then !invO.contains p.2 else !ne.inv.contains p.2
+              let (rO, w) := outerCall false (op != "cm2") nO ne.k (ne.form != "cm2") nN vv ⟨st.cv, st.ci, (0, 0), 0, none⟩
+              match w.nested with
+              | some rN =>
+                let (lineN, dN, _) := oneCall st1 ne.form hN ne.a ne.b (some ne.inv) before (0, 0) (some rN)
+                let (line, _, _) := oneCall st1 op h a b none before dN (some rO)
+                ({ st1 with cv := w.cv, ci := w.ci }, line ++ " || nested " ++ lineN)
+              | none =>
+                let (line, _, _) := oneCall st1 op h a b none before (0, 0) (some rO)
+                ({ st1 with cv := w.cv, ci := w.ci }, line ++ " || nested=none")
+            else if ne.k ≤ asked then
+              -- (constrained traversals, Dubins3D without a path) the nested call runs to completion in the middle of the
+              -- outer one, on the same validator
               let (lineN, dN, _) := oneCall st1 ne.form hN ne.a ne.b (some ne.inv) before (0, 0)
               let (line, d, _) := oneCall st1 op h a b none before dN
               ({ st1 with cv := st.cv + dN.1 + d.1, ci := st.ci + dN.2 + d.2 }, line ++ " || nested " ++ lineN)
